@@ -1,5 +1,7 @@
 // Command vdrive executes abstract histories on the real broker and writes the recorded traces.
-//   vdrive run <histories.json> <out.ndjson> [workers]
+//
+//	vdrive run <histories.json> <out.ndjson> [workers]
+//
 // histories.json: [{"name":..., "cfg":{...}, "ops":[...]}, ...]; output: one line per event, each
 // history introduced by its Config line (the TraceReset of spec/TraceBroker.tla).
 package main
